@@ -11,6 +11,7 @@ import (
 
 	cometabci "github.com/cometbft/cometbft/abci/types"
 	cmted25519 "github.com/cometbft/cometbft/crypto/ed25519"
+	cmtprotocrypto "github.com/cometbft/cometbft/proto/tendermint/crypto"
 	cmtproto "github.com/cometbft/cometbft/proto/tendermint/types"
 	cryptocodec "github.com/cosmos/cosmos-sdk/crypto/codec"
 	"github.com/cosmos/cosmos-sdk/crypto/keys/ed25519"
@@ -59,6 +60,7 @@ type c15World struct {
 	enabled      bool
 	client       string // the L1 client id configured in the bridge info ("" = not yet configured)
 	log          []string
+	badKeyNext   bool // the next refresh carries an entry with an unconvertible consensus key
 	discardNext  bool // the next refresh runs on a branch that is thrown away
 	discarded    int
 }
@@ -177,6 +179,28 @@ func (w *c15World) refresh(rt *rapid.T, forceValid ...bool) error {
 		}
 		set.Validators = append(set.Validators, &cmtproto.Validator{Address: v.addr, PubKey: pk, VotingPower: v.power})
 		offered[string(v.addr)] = v
+	}
+	if w.badKeyNext {
+		// the light client hands over a set in which one entry (not the first) has a consensus key that cannot
+		// be converted: the refresh fails, and the transaction that carried it is rolled back - the caller
+		// writes only when no error is returned
+		w.badKeyNext = false
+		if len(set.Validators) >= 2 {
+			set.Validators[len(set.Validators)-1].PubKey = cmtprotocrypto.PublicKey{}
+		} else {
+			set.Validators = append(set.Validators, &cmtproto.Validator{Address: []byte("unconvertible-key-01"), VotingPower: 1})
+		}
+		cctx, write := w.l2.Ctx.CacheContext()
+		err := w.l2.K.UpdateHostValidatorSet(cctx, clientID, height, set)
+		w.logf("refresh with an unconvertible key (client=%q height=%d n=%d) -> %v", clientID, height, len(set.Validators), err)
+		if err == nil {
+			write()
+			w.logf("... reported success, written")
+		}
+		if err := w.checkStored(); err != nil {
+			return fmt.Errorf("after a refresh that carried an unconvertible consensus key: %v", err)
+		}
+		return nil
 	}
 	if w.discardNext {
 		// the refresh runs on a branch that is never written (the client-update transaction fails later,
@@ -416,12 +440,25 @@ func TestC15Rapid(t *testing.T) {
 		if err := w.refresh(rt, rapid.IntRange(0, 9).Draw(rt, "firstRefreshValid") < 9); err != nil {
 			rt.Fatalf("C15 violated: %v\nhistory:\n%s", err, strings.Join(w.log, "\n"))
 		}
-		ts := int64(1_700_000_000_000_000_000)
+		// L1 timestamps of 2023, or of 2100: nothing may depend on how they relate to the L2 block time or to
+		// the clock of the machine that executes the block
+		ts := rapid.SampledFrom([]int64{1_700_000_000_000_000_000, 1_700_000_000_000_000_000, 4_102_444_800_000_000_000}).Draw(rt, "tsBase")
+		applied := map[string]int64{} // pair -> L1 timestamp of the last update that changed it
 		repeatSteps(rt, 6, func(i int) {
 			fail := func(f string, a ...interface{}) {
 				rt.Fatalf("C15 violated at step %d: %s\nhistory:\n%s", i, fmt.Sprintf(f, a...), strings.Join(w.log, "\n"))
 			}
-			switch drawWeighted(rt, "op", []weighted{{"update", 8}, {"refresh", 2}, {"toggle", 1}, {"discarded-refresh", 1}}) {
+			switch drawWeighted(rt, "op", []weighted{{"update", 8}, {"refresh", 2}, {"toggle", 1}, {"discarded-refresh", 1}, {"next-block", 2}, {"bad-key-refresh", 1}}) {
+			case "next-block":
+				w.l2.NextBlock(time.Duration(rapid.IntRange(1, 10).Draw(rt, "blockSeconds")) * time.Second)
+				w.logf("next block, time %s", w.l2.Ctx.BlockTime().UTC().Format(time.RFC3339))
+				return
+			case "bad-key-refresh":
+				w.badKeyNext = true
+				if err := w.refresh(rt, true); err != nil {
+					fail("%v", err)
+				}
+				return
 			case "discarded-refresh":
 				w.discardNext = true
 				w.discarded++
@@ -530,6 +567,15 @@ func TestC15Rapid(t *testing.T) {
 			changed, serr := w.safety(before, after, r, sender, perPair, total, values, height)
 			if serr != nil {
 				fail("%v", serr)
+			}
+			for _, p := range w.pairs {
+				if before[p] == after[p] {
+					continue
+				}
+				if last, ok := applied[p]; ok && ts <= last {
+					fail("%s was changed by an update with L1 timestamp %d after an update with L1 timestamp %d had been applied (replay / rollback)", p, ts, last)
+				}
+				applied[p] = ts
 			}
 			// liveness side: a fully honest, fresh, sufficiently supported update must be applied
 			allHonest := forged == 0
